@@ -8,6 +8,7 @@
                                                             -> re-encoded in DER (SET OF members sorted)
    The operations relic performs on a parsed value:
      RoundTrip       Unmarshal; Marshal                               (timestamp cache; certloader)
+     Detach          Unmarshal; Detach(); Marshal: the content is handed back, the value keeps its content TYPE
      Embed           a parsed token is marshalled into an unauthenticated attribute of a signature relic has just built
                      (pkcs9.TimestampAndMarshal / AddStampToSignedData / AddStampToSignedAuthenticode)
      EmbedDetach     Embed, then Detach() the outer content, then Marshal  (jar, code-signature blob, xar)
@@ -24,10 +25,10 @@ CONSTANTS Variant
 Shapes == [attrs: {"sorted", "unsorted"}, ncerts: 0..2, extraCert: BOOLEAN, crl: BOOLEAN, key: {"rsa", "ecdsa", "pss"},
            nullParam: BOOLEAN, timeForm: {"utc", "gen", "none"}, multiAttr: BOOLEAN, nested: BOOLEAN,
            algs: {"one", "two-sorted", "two-unsorted"}, ber: {"der", "longlen", "indef"}]
-Ops == {"RoundTrip", "Embed", "EmbedDetach", "Resign"}
+Ops == {"RoundTrip", "Detach", "Embed", "EmbedDetach", "Resign"}
 
 \* the parts of a SignedData value
-Signed == {"econtent", "sattrs", "sig", "sid", "certs", "crlTbs", "nestedToken"}   \* covered by some third-party signature or referenced by one
+Signed == {"econtent", "ctype", "sattrs", "sig", "sid", "certs", "crlTbs", "nestedToken"}   \* covered by some third-party signature or referenced by one
 Unsigned == {"lengths", "digestAlgSet", "version"}
 Parts == Signed \cup Unsigned
 
@@ -58,6 +59,7 @@ Parse ==
 \* how Marshal treats each part of a PARSED value
 Emit(p) ==
   CASE p \in {"econtent", "sid", "sig"} -> "same"                    \* ContentInfo.Raw / SignerInfo.RawContent
+    [] p = "ctype" -> IF Variant = "DetachAsData" /\ op = "Detach" THEN "der" ELSE "same"
     [] p = "sattrs" -> IF Variant = "SortSignedAttrs" /\ shape.attrs = "unsorted" THEN "der"
                        ELSE IF Variant = "NoSignerRaw" /\ shape.multiAttr THEN "der" ELSE "same"
     [] p = "certs" -> IF Variant = "DropUnparsableCert" /\ shape.extraCert THEN "gone" ELSE "same"
@@ -70,6 +72,9 @@ Operate ==
   /\ CASE op = "RoundTrip" ->
             /\ part' = [p \in Parts |-> IF Has(shape, p) THEN Emit(p) ELSE "absent"]
             /\ outcome' = "emitted" /\ UNCHANGED newAttrs
+       [] op = "Detach" ->
+            /\ part' = [p \in Parts |-> IF p = "econtent" THEN "gone" ELSE IF Has(shape, p) THEN Emit(p) ELSE "absent"]
+            /\ outcome' = "detached" /\ UNCHANGED newAttrs
        [] op \in {"Embed", "EmbedDetach"} ->
             IF ~SelfCheckOk(shape)
             THEN outcome' = "refused" /\ UNCHANGED <<part, newAttrs>>
@@ -79,7 +84,8 @@ Operate ==
                  /\ outcome' = IF op = "Embed" THEN "embedded" ELSE "embedded-detached"
        [] op = "Resign" ->
             \* only the encapsulated content of the old value survives; everything else is new
-            /\ part' = [p \in Parts |-> IF p = "econtent" THEN (IF Variant = "ReencodeContent" THEN "der" ELSE "same") ELSE "new"]
+            /\ part' = [p \in Parts |-> IF p = "econtent" THEN (IF Variant = "ReencodeContent" THEN "der" ELSE "same")
+                                        ELSE IF p = "ctype" THEN "same" ELSE "new"]
             /\ newAttrs' = <<>>      \* observed: the catalog signer builds a signer info WITHOUT authenticated attributes
             /\ outcome' = "resigned"
   /\ phase' = "done"
@@ -89,12 +95,13 @@ Next == Parse \/ Operate
 Spec == Init /\ [][Next]_vars /\ WF_vars(Next)
 
 -----------------------------------------------------------------------------
-TypeOK == phase \in {"parse", "operate", "done"} /\ outcome \in {"none", "refused", "emitted", "embedded", "embedded-detached", "resigned"}
+TypeOK == phase \in {"parse", "operate", "done"} /\ outcome \in {"none", "refused", "emitted", "detached", "embedded", "embedded-detached", "resigned"}
 
 \* every signed part of the third-party value is byte-identical afterwards (or was never there / is legitimately replaced)
 SignedPartsSame ==
   (phase = "done" /\ outcome \notin {"refused", "none"}) =>
      \A p \in Signed : part[p] \in {"same", "absent"} \/ (op = "Resign" /\ p # "econtent" /\ part[p] = "new")
+                         \/ (op = "Detach" /\ p = "econtent" /\ part[p] = "gone")
 
 \* a signer info relic builds has each mandatory attribute exactly once
 Count(seq, x) == Cardinality({i \in DOMAIN seq : seq[i] = x})
